@@ -107,7 +107,14 @@ def structured():
             ("mroot", ("mpow", ("int", 2), 3), 2), ("mroot", ("mpow", ("int", 7), 5), 3), ("mmul", ("mpow", ("int", 2), 3), ("mroot", ("int", 3), 2)),
             # rational powers with large numerators (the order root-then-power vs power-then-root matters for the error)
             ("mroot", ("mpow", ("int", 2), 101), 2), ("mroot", ("mpow", ("int", 3), 101), 2), ("mroot", ("mpow", ("int", 2), 64), 7), ("mroot", ("mpow", ("int", 2), 21), 2),
-            ("mroot", ("mpow", ("int", 5), 33), 4), ("mpow", ("mroot", ("int", 7), 3), 50), ("mroot", ("mpow", ("int", 2), -75), 2), ("mroot", ("mpow", ("int", 10), 41), 3)]
+            ("mroot", ("mpow", ("int", 5), 33), 4), ("mpow", ("mroot", ("int", 7), 3), 50), ("mroot", ("mpow", ("int", 2), -75), 2), ("mroot", ("mpow", ("int", 10), 41), 3),
+            # roots of single prime powers that are far beyond every built-in type's range themselves (the root is in range)
+            ("mroot", ("mpow", ("int", 2), 1201), 2), ("mroot", ("mpow", ("int", 2), 1000), 3), ("mroot", ("mpow", ("int", 10), 601), 2), ("mroot", ("mpow", ("int", 2), 2047), 2),
+            ("mroot", ("mpow", ("int", 2), -1201), 2), ("mroot", ("mpow", ("int", 10), -613), 3), ("mroot", ("mpow", ("int", 2), 32001), 2), ("mroot", ("mpow", ("int", 2), 5003), 5),
+            ("mroot", ("mpow", ("int", 3), 1001), 2), ("mroot", ("mpow", ("int", 10), 1201), 4), ("mroot", ("mpow", ("int", 2), -2047), 2), ("mroot", ("mpow", ("int", 7), 2999), 3),
+            ("mmul", ("mroot", ("mpow", ("int", 2), 1501), 2), ("mroot", ("mpow", ("int", 3), -901), 2)), ("mroot", ("mpow", ("int", 2), 190), 3),
+            # the integer power overflows long double although its root is in range (known finding N10)
+            ("mroot", ("mpow", ("int", 3), 19999), 2)]
     return out
 
 
@@ -164,7 +171,7 @@ def run(chk, which="C11"):
         fixed = mags[:len(structured())]
         rest = mags[len(structured()):]
         rnd.shuffle(fixed)
-        mags = fixed[:150] + rest
+        mags = fixed + rest  # (every structured magnitude in every run; only the random ones vary with the seed)
     n_tu = 16 if tier == "quick" else 64
     units = {}
     plans = []
@@ -277,7 +284,7 @@ def run(chk, which="C11"):
                     if too_big and rep:
                         chk.violation(f"C11|representable_in|{key}", msg=f"representable_in<{tname}>({expr[:250]}) is true but the exact value exceeds the type's maximum")
                     if in_range and not rep:
-                        chk.violation(f"C11|representable_in|{key}", msg=f"representable_in<{tname}>({expr[:250]}) is false but the exact value {float(exact_fr):.6g} is in range")
+                        chk.violation(f"C11|representable_in|{key}", msg=f"representable_in<{tname}>({expr[:250]}) is false but the exact value ~{exact:.6E} is in range")
                     if rep and not too_big:
                         got_v = parse_hexfloat(info["val"])
                         if got_v is None or got_v <= 0:
